@@ -22,9 +22,17 @@ type entryJ struct {
 	Manufacturer string `json:"Manufacturer"`
 }
 
-// concrete spellings of the abstract values: A differs from a only in letter case, "a." only by a trailing dot
-var concrete = map[string]string{"": "", "a": "host-a", "A": "HOST-A", "a.": "host-a.", "b": "host-b"}
-var abstract = map[string]string{"": "", "host-a": "a", "HOST-A": "A", "host-a.": "a.", "host-b": "b"}
+// concrete spellings of the abstract values: the variants of a differ in letter case, trailing blank / tab / CR LF / dot;
+// "sp" is a value that consists of one blank
+var concrete = map[string]string{"": "", "a": "host-a", "A": "HOST-A", "a.": "host-a.", "b": "host-b",
+	"a_sp": "host-a ", "sp": " ", "a_tab": "host-a\t", "a_crlf": "host-a\r\n"}
+var abstract = func() map[string]string {
+	m := map[string]string{}
+	for k, v := range concrete {
+		m[v] = k
+	}
+	return m
+}()
 
 func conc(s string) string {
 	if c, ok := concrete[s]; ok {
